@@ -46,9 +46,8 @@ enum SOp {
 
 /// What the compact list stores for a pushed value (documented contract: entries are non-negative).
 fn stored(v: f64) -> f64 {
-    if cfg!(feature = "raw_strains") {
-        v
-    } else if v.to_bits() > 0 && v.is_sign_positive() {
+    // both lists store anything that is not a positive (sign-positive, non-zero) value as zero
+    if v.to_bits() > 0 && v.is_sign_positive() {
         v
     } else {
         0.0
